@@ -662,8 +662,8 @@ C03_OneStartOneEnd == (Idle /\ NoSerFail) => \A d \in Dest : Healthy(d) => \A a 
 C03_StatusTruthful == (Idle /\ NoSerFail) => \A d \in Dest : Healthy(d) => \A a \in DOMAIN acts :
                         \A e \in Own(Stream(d), a, "end") : Stream(d)[e].st = nodes[acts[a].node].st
 C03_FieldPlacement == \A d \in Dest : \A i \in DOMAIN offered[d] : LET m == Stream(d)[i] IN
-                        /\ (m.k = "start" /\ m.rep = "") => m.f \cap {"z", "result", "exception", "reason", "e0", "e1", "e2", "d2"} = {}
-                        /\ (m.k = "end" /\ m.st = "failed") => m.f \cap {"z", "sa", "result"} = {} /\ {"exception", "reason"} \subseteq m.f
+                        /\ (m.k = "start" /\ m.rep = "") => m.f \cap {"z", "hz", "result", "exception", "reason", "e0", "e1", "e2", "d2"} = {}
+                        /\ (m.k = "end" /\ m.st = "failed") => m.f \cap {"z", "hz", "sa", "result"} = {} /\ {"exception", "reason"} \subseteq m.f
                         /\ (m.k = "end" /\ m.st = "succeeded") => m.f \cap {"sa", "exception", "reason", "e0", "e1", "e2"} = {}
 
 ---- (* C04 / C05: the context variable *)
